@@ -10,7 +10,11 @@
 //!      (signature matrix), `count()` where the store has one.
 //! (a2) E2, key-id store histories: digests x key ids x {insert, get, delete}.
 //! Stores that persist ([`Backend::PERSISTENT`]) are additionally dropped and rebuilt from what they wrote after
-//! every judged step; the observation vector must survive.
+//! every judged step; the observation vector must survive. Two optional run modes (never used for the in-memory
+//! stores, absent from their replay files): `reopen_each` = the store is dropped and rebuilt after EVERY operation
+//! of the replayed history as well; `side` = for a store object that implements both traits, the fresh store first
+//! receives entries of the OTHER kind (two key-id mappings, resp. two keys), which every later observation must
+//! find unchanged.
 
 use identity_eddsa_verifier::EdDSAJwsVerifier;
 use identity_jose::jwk::{EcCurve, Jwk, JwkParamsEc};
@@ -60,6 +64,13 @@ pub trait Backend: 'static {
   fn key_type(k: Gk) -> KeyType;
   /// Drive one of the store's futures to completion on the current thread.
   fn block_on<F: Future>(f: F) -> F::Output;
+  /// For a store object that implements both traits: the other face of the same object (`side` run mode).
+  fn keyids_of_keys(_h: &Self::KeysH) -> Option<&Self::KeyIds> {
+    None
+  }
+  fn keys_of_keyids(_h: &Self::KeyIdsH) -> Option<&Self::Keys> {
+    None
+  }
 }
 
 // ================================================================================================ cases
@@ -120,8 +131,30 @@ pub enum IOp {
 /// names and fields (its serde form is what ends up in the replay files).
 #[derive(Serialize, Deserialize, Debug, Clone)]
 pub enum SeqCase {
-  Jwk { cap: u8, hist: Vec<KOp> },
-  KeyId { hist: Vec<IOp> },
+  Jwk {
+    cap: u8,
+    hist: Vec<KOp>,
+    #[serde(default, skip_serializing_if = "Mode::is_plain")]
+    mode: Mode,
+  },
+  KeyId {
+    hist: Vec<IOp>,
+    #[serde(default, skip_serializing_if = "Mode::is_plain")]
+    mode: Mode,
+  },
+}
+/// Run mode of a history (see the module documentation); the default is what the in-memory stores are run with.
+#[derive(Serialize, Deserialize, Debug, Clone, Copy, Default, PartialEq, Eq)]
+pub struct Mode {
+  #[serde(default)]
+  pub reopen_each: bool,
+  #[serde(default)]
+  pub side: bool,
+}
+impl Mode {
+  pub fn is_plain(&self) -> bool {
+    !self.reopen_each && !self.side
+  }
 }
 
 // ================================================================================================ helpers
@@ -193,6 +226,8 @@ pub struct KObs {
   never: SlotObs,
   /// `count()` of the store (None = the store has no such method)
   count: Option<usize>,
+  /// `side` mode: get_key_id of the two digests mapped before the history started (empty otherwise)
+  side: Vec<Option<u8>>,
 }
 
 struct RSlot {
@@ -202,6 +237,7 @@ struct RSlot {
 struct Real<B: Backend> {
   store: B::KeysH,
   slots: Vec<RSlot>,
+  side: bool,
 }
 
 enum KRes {
@@ -214,8 +250,18 @@ enum KRes {
 }
 
 impl<B: Backend> Real<B> {
-  fn new() -> Real<B> {
-    Real { store: B::open_keys(), slots: Vec::new() }
+  fn new(mode: Mode) -> Real<B> {
+    let store = B::open_keys();
+    let mut side = false;
+    if mode.side {
+      if let Some(ids) = B::keyids_of_keys(&store) {
+        side = true;
+        for d in 0..2u8 {
+          let _ = guard(|| B::block_on(ids.insert_key_id(digest(d), key_id(d))));
+        }
+      }
+    }
+    Real { store, slots: Vec::new(), side }
   }
   fn id(&self, slot: u8) -> KeyId {
     if slot == NEVER {
@@ -322,6 +368,15 @@ impl<B: Backend> Real<B> {
       slots: self.slots.iter().map(|s| self.observe_id(&s.id, &s.public)).collect(),
       never: self.observe_id(&self.id(NEVER), &self.own_public(NEVER)),
       count: B::key_count(&self.store),
+      side: match (self.side, B::keyids_of_keys(&self.store)) {
+        (true, Some(ids)) => (0..2u8)
+          .map(|d| match guard(|| B::block_on(ids.get_key_id(&digest(d)))) {
+            Ok(Ok(k)) => Some(key_id_index(&k)),
+            _ => None,
+          })
+          .collect(),
+        _ => Vec::new(),
+      },
     }
   }
 }
@@ -378,6 +433,7 @@ pub struct KModel<B: Backend> {
   pub track_depth: bool,
   pub col: Arc<Collector>,
   pub diverged: Arc<AtomicBool>,
+  pub mode: Mode,
   pub backend: PhantomData<fn() -> B>,
 }
 
@@ -393,15 +449,23 @@ fn slot_class(slots: &[MSlot], slot: u8) -> &'static str {
 
 impl<B: Backend> KModel<B> {
   pub fn new(cap: u8, track_depth: bool, col: Arc<Collector>, diverged: Arc<AtomicBool>) -> Self {
-    KModel { cap, track_depth, col, diverged, backend: PhantomData }
+    KModel { cap, track_depth, col, diverged, mode: Mode::default(), backend: PhantomData }
+  }
+  pub fn with_mode(mut self, mode: Mode) -> Self {
+    self.mode = mode;
+    self
   }
 
   /// Rebuild the real store of a state by replaying its history.
   fn rebuild(&self, s: &KState) -> Real<B> {
-    let mut real = Real::<B>::new();
+    let mut real = Real::<B>::new(self.mode);
     for op in &s.hist {
       let r = real.apply(*op);
       real.record(*op, &r);
+      if self.mode.reopen_each && B::PERSISTENT {
+        // a failure here shows up in the judged step that follows (and was reported where this prefix was judged)
+        let _ = guard(|| B::reopen_keys(&mut real.store));
+      }
     }
     if real.slots.len() != s.slots.len() {
       self.diverged.store(true, Ordering::Relaxed);
@@ -416,7 +480,7 @@ impl<B: Backend> KModel<B> {
     let mut real = self.rebuild(s);
     let mut hist = s.hist.clone();
     hist.push(op);
-    let case = SeqCase::Jwk { cap: self.cap, hist: hist.clone() };
+    let case = SeqCase::Jwk { cap: self.cap, hist: hist.clone(), mode: self.mode };
     let mut slots = s.slots.clone();
     let res = real.apply(op);
     let viol = |key: &str, what: String| self.col.violation(key, &format!("{what}; history {hist:?}"), &case);
@@ -629,6 +693,10 @@ impl<B: Backend> KModel<B> {
         ok = false;
       }
     }
+    if real.side && obs.side != [Some(0), Some(1)] {
+      viol(&format!("{}|{name}|key-id-mappings-changed-by-a-key-operation", B::KEY_STORE), format!("get_key_id of the two digests mapped beforehand: {:?}", obs.side));
+      ok = false;
+    }
     if !ok {
       return None;
     }
@@ -658,6 +726,9 @@ impl<B: Backend> KModel<B> {
           } else if s0 != s1 {
             what = "key-signs-differently";
           }
+        }
+        if what == "observation-differs" && obs.side != again.side {
+          what = "key-id-mapping-lost-or-changed";
         }
         viol(&format!("{}|reopen-after-{name}|{what}", B::KEY_STORE), format!("before the reopen {obs:?}, after it {again:?}"));
         self.col.outcome(&format!("reopen:{what}"));
@@ -703,7 +774,7 @@ impl<B: Backend> Model for KModel<B> {
   type State = KState;
   type Action = KOp;
   fn init_states(&self) -> Vec<KState> {
-    let real = Real::<B>::new();
+    let real = Real::<B>::new(self.mode);
     vec![KState { hist: vec![], slots: vec![], obs: real.observe(), depth: 0 }]
   }
   fn actions(&self, s: &KState, out: &mut Vec<KOp>) {
@@ -754,8 +825,12 @@ pub fn key_id_index(k: &KeyId) -> u8 {
   KEY_IDS.iter().position(|s| *s == k.as_str()).map(|p| p as u8).unwrap_or(254)
 }
 
-/// get_key_id of every digest of the universe (None = error) + count() where the store has one
-type IObs = (Vec<Option<u8>>, Option<usize>);
+/// get_key_id of every digest of the universe (None = error) + count() where the store has one + (`side` mode)
+/// the observation of the two keys stored before the history started
+type IObs = (Vec<Option<u8>>, Option<usize>, Vec<SlotObs>);
+/// What the two keys of the `side` mode must look like at every step: both exist, each signs, and its
+/// signature verifies under its own public JWK only.
+const SIDE_KEYS_WANT: [SlotObs; 2] = [(1, Some(0b01)), (1, Some(0b10))];
 
 #[derive(Clone, Debug)]
 pub struct IState {
@@ -779,9 +854,25 @@ pub struct IModel<B: Backend> {
   pub digests: u8,
   pub ids: u8,
   pub col: Arc<Collector>,
+  pub mode: Mode,
   pub backend: PhantomData<fn() -> B>,
 }
-fn observe_keyids<B: Backend>(h: &B::KeyIdsH, digests: u8) -> IObs {
+/// `side` mode of the key-id histories: one generated and one inserted key in the same store object.
+fn side_keys_setup<B: Backend>(h: &B::KeyIdsH, mode: Mode) -> Vec<RSlot> {
+  let mut v = Vec::new();
+  if mode.side {
+    if let Some(keys) = B::keys_of_keyids(h) {
+      if let Ok(Ok(out)) = guard(|| B::block_on(keys.generate(B::key_type(Gk::Ed25519), JwsAlgorithm::EdDSA))) {
+        v.push(RSlot { id: out.key_id, public: out.jwk });
+      }
+      if let Ok(Ok(id)) = guard(|| B::block_on(keys.insert(insert_jwk(Ins::Valid(1))))) {
+        v.push(RSlot { id, public: EdKey::new(1).public_with_alg("EdDSA") });
+      }
+    }
+  }
+  v
+}
+fn observe_keyids<B: Backend>(h: &B::KeyIdsH, digests: u8, side: &[RSlot]) -> IObs {
   let store = B::keyids(h);
   let v = (0..digests)
     .map(|d| match guard(|| B::block_on(store.get_key_id(&digest(d)))) {
@@ -789,7 +880,22 @@ fn observe_keyids<B: Backend>(h: &B::KeyIdsH, digests: u8) -> IObs {
       _ => None,
     })
     .collect();
-  (v, B::keyid_count(h))
+  let mut side_obs = Vec::new();
+  if let (false, Some(keys)) = (side.is_empty(), B::keys_of_keyids(h)) {
+    for s in side {
+      let e = match guard(|| B::block_on(keys.exists(&s.id))) {
+        Ok(Ok(false)) => 0,
+        Ok(Ok(true)) => 1,
+        _ => 2,
+      };
+      let sg = match guard(|| B::block_on(keys.sign(&s.id, MSG, &s.public))) {
+        Ok(Ok(sig)) => Some(side.iter().enumerate().fold(0u32, |m, (j, o)| if verifies(&sig, &o.public) { m | 1 << j } else { m })),
+        _ => None,
+      };
+      side_obs.push((e, sg));
+    }
+  }
+  (v, B::keyid_count(h), side_obs)
 }
 fn apply_iop<B: Backend>(h: &B::KeyIdsH, op: IOp) -> Result<Result<Option<u8>, String>, vx::Panicked> {
   let store = B::keyids(h);
@@ -801,14 +907,20 @@ fn apply_iop<B: Backend>(h: &B::KeyIdsH, op: IOp) -> Result<Result<Option<u8>, S
 }
 impl<B: Backend> IModel<B> {
   pub fn new(digests: u8, ids: u8, col: Arc<Collector>) -> Self {
-    IModel { digests, ids, col, backend: PhantomData }
+    IModel { digests, ids, col, mode: Mode::default(), backend: PhantomData }
+  }
+  pub fn with_mode(mut self, mode: Mode) -> Self {
+    self.mode = mode;
+    self
   }
 }
 impl<B: Backend> Model for IModel<B> {
   type State = IState;
   type Action = IOp;
   fn init_states(&self) -> Vec<IState> {
-    vec![IState { hist: vec![], model: BTreeMap::new(), obs: observe_keyids::<B>(&B::open_keyids(), self.digests) }]
+    let store = B::open_keyids();
+    let side = side_keys_setup::<B>(&store, self.mode);
+    vec![IState { hist: vec![], model: BTreeMap::new(), obs: observe_keyids::<B>(&store, self.digests, &side) }]
   }
   fn actions(&self, _s: &IState, out: &mut Vec<IOp>) {
     for d in 0..self.digests {
@@ -822,12 +934,16 @@ impl<B: Backend> Model for IModel<B> {
   fn next_state(&self, s: &IState, op: IOp) -> Option<IState> {
     self.col.eval1();
     let mut store = B::open_keyids();
+    let side = side_keys_setup::<B>(&store, self.mode);
     for h in &s.hist {
       let _ = apply_iop::<B>(&store, *h);
+      if self.mode.reopen_each && B::PERSISTENT {
+        let _ = guard(|| B::reopen_keyids(&mut store));
+      }
     }
     let mut hist = s.hist.clone();
     hist.push(op);
-    let case = SeqCase::KeyId { hist: hist.clone() };
+    let case = SeqCase::KeyId { hist: hist.clone(), mode: self.mode };
     let viol = |key: &str, what: String| self.col.violation(key, &format!("{what}; history {hist:?}"), &case);
     let mut model = s.model.clone();
     let r = match apply_iop::<B>(&store, op) {
@@ -889,7 +1005,7 @@ impl<B: Backend> Model for IModel<B> {
     if !ok {
       return None;
     }
-    let obs = observe_keyids::<B>(&store, self.digests);
+    let obs = observe_keyids::<B>(&store, self.digests, &side);
     let want: Vec<Option<u8>> = (0..self.digests).map(|d| model.get(&d).copied()).collect();
     if obs.0 != want || obs.1.map(|c| c != model.len()).unwrap_or(false) {
       let key = match op {
@@ -901,12 +1017,19 @@ impl<B: Backend> Model for IModel<B> {
       viol(&key, format!("observed {obs:?}, model {want:?} / {}", model.len()));
       return None;
     }
+    let name = match op {
+      IOp::Insert(..) => "insert_key_id",
+      IOp::Get(_) => "get_key_id",
+      IOp::Delete(_) => "delete_key_id",
+    };
+    if self.mode.side && B::keys_of_keyids(&store).is_some() && obs.2 != SIDE_KEYS_WANT {
+      viol(
+        &format!("{}|{name}|stored-keys-changed-by-a-key-id-operation", B::KEYID_STORE),
+        format!("(exists, signature matrix row) of the two keys stored beforehand: {:?}", obs.2),
+      );
+      return None;
+    }
     if B::PERSISTENT {
-      let name = match op {
-        IOp::Insert(..) => "insert_key_id",
-        IOp::Get(_) => "get_key_id",
-        IOp::Delete(_) => "delete_key_id",
-      };
       match guard(|| B::reopen_keyids(&mut store)) {
         Err(p) => {
           viol(&format!("{}|reopen-after-{name}|{}", B::KEYID_STORE, p.key()), p.msg.clone());
@@ -920,7 +1043,7 @@ impl<B: Backend> Model for IModel<B> {
         }
         Ok(Ok(())) => {}
       }
-      let again = observe_keyids::<B>(&store, self.digests);
+      let again = observe_keyids::<B>(&store, self.digests, &side);
       if again != obs {
         let mut what = "observation-differs";
         for (a, b) in obs.0.iter().zip(&again.0) {
@@ -930,6 +1053,9 @@ impl<B: Backend> Model for IModel<B> {
             (Some(x), Some(y)) if x != y => what = "mapping-changed",
             _ => {}
           }
+        }
+        if what == "observation-differs" && obs.2 != again.2 {
+          what = "stored-key-lost-or-changed";
         }
         viol(&format!("{}|reopen-after-{name}|{what}", B::KEYID_STORE), format!("before the reopen {obs:?}, after it {again:?}"));
         self.col.outcome(&format!("reopen:{what}"));
@@ -955,9 +1081,9 @@ fn res_name<T>(r: &Result<T, String>) -> String {
 
 /// Re-run one recorded history step by step through the judged transition function (what `eval` does for a
 /// sequential case).
-pub fn replay_jwk<B: Backend>(cap: u8, hist: &[KOp]) -> Arc<Collector> {
+pub fn replay_jwk<B: Backend>(cap: u8, hist: &[KOp], mode: Mode) -> Arc<Collector> {
   let col = Collector::new();
-  let m = KModel::<B>::new(cap, false, col.clone(), Arc::new(AtomicBool::new(false)));
+  let m = KModel::<B>::new(cap, false, col.clone(), Arc::new(AtomicBool::new(false))).with_mode(mode);
   let mut st = m.init_states().remove(0);
   for op in hist {
     match m.next_state(&st, *op) {
@@ -967,9 +1093,9 @@ pub fn replay_jwk<B: Backend>(cap: u8, hist: &[KOp]) -> Arc<Collector> {
   }
   col
 }
-pub fn replay_keyid<B: Backend>(hist: &[IOp]) -> Arc<Collector> {
+pub fn replay_keyid<B: Backend>(hist: &[IOp], mode: Mode) -> Arc<Collector> {
   let col = Collector::new();
-  let m = IModel::<B>::new(3, 3, col.clone());
+  let m = IModel::<B>::new(3, 3, col.clone()).with_mode(mode);
   let mut st = m.init_states().remove(0);
   for op in hist {
     match m.next_state(&st, *op) {
